@@ -27,7 +27,28 @@ use zip::{CompressionMethod, ZipArchive};
 
 pub struct Clones;
 
-type Arc_ = ZipArchive<Cursor<Vec<u8>>>;
+type Arc_ = ZipArchive<Wander>;
+
+/// The archive's reader in this stream: a `Cursor` whose `clone()` is an independent cursor standing at an
+/// UNRELATED position (the original's, the start, or the end, in rotation). The property promises each handle "its
+/// own cloned reader"; nothing says where a cloned reader stands, and the crate seeks before every read, so a
+/// correct crate cannot tell. A handle that carries a remembered reader position over to its clone can.
+pub struct Wander(Cursor<Vec<u8>>);
+static WANDER_CLONES: std::sync::atomic::AtomicU64 = std::sync::atomic::AtomicU64::new(0);
+impl Clone for Wander {
+    fn clone(&self) -> Self {
+        let n = WANDER_CLONES.fetch_add(1, std::sync::atomic::Ordering::Relaxed);
+        let mut c = Cursor::new(self.0.get_ref().clone());
+        c.set_position(match n % 3 { 0 => self.0.position(), 1 => 0, _ => self.0.get_ref().len() as u64 });
+        Wander(c)
+    }
+}
+impl Read for Wander {
+    fn read(&mut self, buf: &mut [u8]) -> std::io::Result<usize> { self.0.read(buf) }
+}
+impl std::io::Seek for Wander {
+    fn seek(&mut self, pos: std::io::SeekFrom) -> std::io::Result<u64> { self.0.seek(pos) }
+}
 
 // ---- compile-time part of the property: the handle is Send and Sync whenever its reader is -------------
 // The property says "Send and Sync whenever its reader is": asserted PER TRAIT (a reader that is only Send
@@ -212,7 +233,7 @@ fn parse_script(s: &str) -> Option<Vec<(usize, Call)>> {
 
 /// Open the archive once, clone it `k` times, run the call-level schedule.  `None`: not an archive.
 fn exec(zip: &[u8], k: usize, calls: &[(usize, Call)]) -> Option<Vec<String>> {
-    let base = match catch(AssertUnwindSafe(|| ZipArchive::new(Cursor::new(zip.to_vec())))) {
+    let base = match catch(AssertUnwindSafe(|| ZipArchive::new(Wander(Cursor::new(zip.to_vec()))))) {
         Ok(Ok(a)) => a,
         _ => return None,
     };
@@ -265,7 +286,7 @@ fn build(ai: usize, specs: &[Spec], patch: &[(usize, u8)]) -> Built {
     }
     let mut zip = w.finish().unwrap().into_inner();
     if !patch.is_empty() {
-        let mut a = ZipArchive::new(Cursor::new(zip.clone())).unwrap();
+        let mut a = ZipArchive::new(Wander(Cursor::new(zip.clone()))).unwrap();
         let mut pos = vec![];
         for i in 0..a.len() {
             let f = a.by_index_raw(i).unwrap();
@@ -569,7 +590,7 @@ fn threads(n: usize, rounds: usize, seed: u64) -> String {
     // solo reference: a handle used alone
     let mut solo = vec![];
     {
-        let mut a = ZipArchive::new(Cursor::new(b.zip.clone())).unwrap();
+        let mut a = ZipArchive::new(Wander(Cursor::new(b.zip.clone()))).unwrap();
         for i in 0..a.len() {
             let mut f = a.by_index(i).unwrap();
             let mut v = vec![];
@@ -582,7 +603,7 @@ fn threads(n: usize, rounds: usize, seed: u64) -> String {
     }
     let solo = &solo;
     for round in 0..rounds {
-        let fresh = ZipArchive::new(Cursor::new(b.zip.clone())).unwrap();
+        let fresh = ZipArchive::new(Wander(Cursor::new(b.zip.clone()))).unwrap();
         let shared = &fresh; // `&ZipArchive` crosses threads: needs `Sync`
         let barrier = std::sync::Barrier::new(n);
         let barrier = &barrier;
@@ -633,7 +654,7 @@ fn threads_crypto(n: usize, round: usize, seed: u64) -> Result<(), String> {
     let mut encs: Vec<usize> = b.keys.iter().map(|k| k.0).collect();
     encs.dedup();
     let encs = &encs;
-    let fresh = ZipArchive::new(Cursor::new(b.zip.clone())).map_err(|e| format!("crypto archive does not open: {e:?}"))?;
+    let fresh = ZipArchive::new(Wander(Cursor::new(b.zip.clone()))).map_err(|e| format!("crypto archive does not open: {e:?}"))?;
     let shared = &fresh;
     let barrier = std::sync::Barrier::new(n);
     let barrier = &barrier;
